@@ -371,6 +371,43 @@ func runOnewayCase(e *Env, idx int, rng *rand.Rand) {
 	}
 	// open the gates: exactly-once delivery
 	open()
+	// B3: send-waiting one-way calls whose context is cancelled right after they returned (defer cancel() pattern),
+	// alternating with calls using context.Background(): none of these contexts ended during its call, so all are delivered
+	k3 := 40 + rng.Intn(80)
+	for k := 0; k < k3; k++ {
+		m := []string{"Uni", "Uni2", "Multi"}[k%3]
+		tok := h.NewToken()
+		req := &puppet.Req{Call: tok, Seq: tok, Kind: 6}
+		node := rng.Intn(n)
+		if m == "Multi" {
+			for i := 0; i < n; i++ {
+				expected[i][tok] = true
+			}
+		} else {
+			expected[node][tok] = true
+		}
+		ctx, cancel := context.WithCancel(context.Background())
+		if k%2 == 1 {
+			ctx = context.Background()
+		}
+		t := h.Go("oneway:cancel-after-return", func() {
+			switch m {
+			case "Uni":
+				cl.Node(node).Uni(ctx, req)
+			case "Uni2":
+				cl.Node(node).Uni2(ctx, req)
+			default:
+				cl.Cfg.Multi(ctx, req)
+			}
+		})
+		hi := h.Await(t, e.W)
+		cancel()
+		if hi.Verdict == h.Hung {
+			R.Violate("oneway-stalls:"+hi.Sig, "send-waiting one-way call to a reachable node did not return: "+hi.Sig, map[string]any{"stack": hi.Stack, "others": hi.Others})
+			return
+		}
+	}
+	R.Count("oneway.cancel_after_return_calls", int64(k3))
 	deadline := time.Now().Add(e.W)
 	check := func() (missing, dup int) {
 		for i, s := range cl.Srvs {
